@@ -30,4 +30,20 @@ def handshakeVerifies (t : TlsCfg) (c : Cert) : Bool :=
 def startTLSOk (t : TlsCfg) (c : Cert) : Bool :=
   handshakeVerifies t c && (t.skipVerify || c.names.contains t.domain)
 
+/-! ### WebSocket transport
+
+`WebsocketTransport` cannot do STARTTLS (`DoesStartTLS` = false) and is secure exactly when the URL scheme is `wss`
+(`IsSecure`; the TLS session is the one of the HTTP upgrade). `NewSession` tries STARTTLS only on an insecure
+transport and applies the SAME gate to every transport: not secure and not `Insecure` → permanent error before SASL. -/
+
+/-- does `NewSession` go on to SASL on a WebSocket transport, and under which secure flag -/
+def wsGate (insecure wss : Bool) : Option Bool :=
+  if wss then some true else if insecure then some false else none
+
+/-- what the client writes on a WebSocket connection to a server that completes every step it is asked for -/
+def wsWrites (insecure wss : Bool) : List Neg.Write :=
+  match wsGate insecure wss with
+  | none => [⟨.open_, false⟩]
+  | some sec => [⟨.open_, sec⟩, ⟨.auth, sec⟩, ⟨.open_, sec⟩, ⟨.bind, sec⟩]
+
 end XmppVerif.Model.C04
